@@ -150,7 +150,7 @@ def run(prop, args):
                 faulted.append(["R %s-k%d-m%d" % (name, kk, mode), "F %d %d" % (kk, mode)] + e[1:])
                 sites += 1
     # focused scenarios: every allocation request of one heavy call
-    foc = focused_scenarios(rng, 40 if quick else 1000)
+    foc = focused_scenarios(rng, 40 if quick else 2500)
     spf = os.path.join(wd, "foc.script")
     open(spf, "w").write("".join("\n".join(su + [tg] + fo) + "\n" for su, tg, fo in foc))
     trf = os.path.join(wd, "foc.ndjson")
@@ -209,7 +209,7 @@ def run(prop, args):
     # 3. object scenarios under every fault position
     exe_f, _ = vf.build_driver("drv_fault", "asan", extra_src=["common/vfault.c"], ldflags=WRAP)
     otraces = []
-    seeds = [args.seed] if quick else [args.seed + i for i in range(12)]
+    seeds = [args.seed] if quick else [args.seed + i for i in range(30)]
     nsites = {}
     for sc in SCENARIOS:
         for sd in seeds:
